@@ -1134,8 +1134,10 @@ macro_rules! c18_gen {
 }
 //@ h=c18_gen_short props=C18,C17 cfgs=K1 tier=q t=1800 | funcs: Generator<Short>::{new, update, processed_len, clone, finalize_with_options, finalize} (public wrapper types) | bound: pieces of 6 and 3 bytes (any content), all option settings: allocator never reached, no panic | stubs: allocator entry points -> assert!(false); select_nth_unstable (core, cannot allocate) -> any ordered quartiles; mapping/increment logging stubs; FuzzyHashLengthEncoding::new contract
 c18_gen!(c18_gen_short, crate::hashes::Short, 6, 48, 52);
-//@ h=c18_gen_longl props=C18,C17 cfgs=K1 tier=t t=3000 | funcs: Generator<LongWithLongChecksum>::{new, update, processed_len, clone, finalize_with_options, finalize} | bound: pieces of 5 and 3 bytes, all option settings | stubs: as c18_gen_short
+//@ h=c18_gen_longl props=C18,C17 cfgs=K1 tier=q t=1800 | funcs: Generator<LongWithLongChecksum>::{new, update, processed_len, clone, finalize_with_options, finalize} | bound: pieces of 5 and 3 bytes, all option settings | stubs: as c18_gen_short
 c18_gen!(c18_gen_longl, crate::hashes::LongWithLongChecksum, 5, 256, 260);
+//@ h=c18_gen_normal props=C18,C17 cfgs=K1 tier=q t=1800 | funcs: Generator<Normal>::{new, update, processed_len, clone, finalize_with_options, finalize} | bound: pieces of 7 and 3 bytes, all option settings | stubs: as c18_gen_short
+c18_gen!(c18_gen_normal, crate::hashes::Normal, 7, 128, 132);
 
 // ------------------------------------------------------------------ native confirmation of F
 //
